@@ -126,6 +126,14 @@ def gen_history(rng, n_requests, swarm):
                 faults = [{"at": r.randint(2, 30), "kind": "interrupt"}]
             steps.append({"op": "send", "raw": run_req(e, rid), "faults": faults})
             meta.append("ctxexpr")
+            if e == "while True { }" and r.chance(0.5):
+                # the user hits Ctrl-C again while the next command is still queued: the command that
+                # continues the endless loop must report the interrupt at once
+                steps.append({"op": "idle_interrupt"})
+                meta.append("idle_interrupt")
+                rid += 1
+                steps.append({"op": "send", "raw": run_req(r.choice([":resume", ":resume", ":skip", ":replace 1"]), rid), "faults": []})
+                meta.append("cmd::resume")
         elif kind == "cmd":
             cmd = command_pool(r, names)
             steps.append({"op": "send", "raw": run_req(cmd, rid), "faults": faults})
